@@ -1,11 +1,21 @@
 pub mod c01;
 pub mod c02;
+pub mod c04;
 pub mod c05;
 pub mod c08;
+pub mod c09;
+pub mod c10;
+pub mod c11;
+pub mod c12;
 pub mod c06;
 pub mod c07;
 pub mod c13;
 pub mod c14;
+pub mod c15;
+pub mod c16;
+pub mod c17;
+pub mod c19;
+pub mod c20;
 pub mod selftest;
 
 use crate::ctx::Ctx;
@@ -15,12 +25,22 @@ pub fn dispatch(ctx: &mut Ctx) -> bool {
         "selftest" => selftest::run(ctx),
         "C01" => c01::run(ctx),
         "C02" => c02::run(ctx),
+        "C04" => c04::run(ctx),
         "C05" => c05::run(ctx),
         "C08" => c08::run(ctx),
+        "C09" => c09::run(ctx),
+        "C10" => c10::run(ctx),
+        "C11" => c11::run(ctx),
+        "C12" => c12::run(ctx),
         "C06" => c06::run(ctx),
         "C07" => c07::run(ctx),
         "C13" => c13::run(ctx),
         "C14" => c14::run(ctx),
+        "C15" => c15::run(ctx),
+        "C16" => c16::run(ctx),
+        "C17" => c17::run(ctx),
+        "C19" => c19::run(ctx),
+        "C20" => c20::run(ctx),
         _ => return false,
     }
     true
